@@ -465,6 +465,13 @@ type OwnedField struct {
 	Readers map[string]bool
 }
 
+// ForbidMethod: a structural assumption of the proofs: type Type of package Pkg has no method Method (e.g. no
+// custom UnmarshalJSON on a configuration struct, so that the host's strict decoder sees every key).
+type ForbidMethod struct {
+	Pkg, Type, Method, Reason, Src string
+	Props                          []string
+}
+
 type Contracts struct {
 	Ghosts  map[string]Sort // ghost state components: name -> SMT sort
 	Globals []*GlobalInv
@@ -474,6 +481,7 @@ type Contracts struct {
 	Types  map[string]*TypeContract
 	Errors []string
 	Files  []string
+	Forbids []*ForbidMethod
 	Dead   map[string]bool // "<funcid> returnK": returns declared unreachable (proved instead of covered)
 }
 
@@ -499,7 +507,7 @@ func (cs *Contracts) ParseContractFile(path string, pkgName string, isSpec bool)
 		line int
 	}
 	var lines []lline
-	heads := []string{"func ", "type ", "spec ", "dead ", "axiom ", "lemma ", "global ", "props ", "arith ", "requires", "ensures", "trusted_ensures", "assigns", "writes", "loop ", "pure", "trusted", "trustframe", "noglobals", "validator", "errors_propagated", "constructor", "unbounded_alloc", "noinline", "fresh ", "note ", "assert", "invariant ", "invariant[", "guarded_by ", "owns ", "immutable", "decreases ", "ghost ", "lastcall ", "allocbound "}
+	heads := []string{"func ", "type ", "spec ", "dead ", "forbid_method", "axiom ", "lemma ", "global ", "props ", "arith ", "requires", "ensures", "trusted_ensures", "assigns", "writes", "loop ", "pure", "trusted", "trustframe", "noglobals", "validator", "errors_propagated", "constructor", "unbounded_alloc", "noinline", "fresh ", "note ", "assert", "invariant ", "invariant[", "guarded_by ", "owns ", "immutable", "decreases ", "ghost ", "lastcall ", "allocbound "}
 	for i, raw := range strings.Split(string(data), "\n") {
 		s := strings.TrimSpace(raw)
 		if !strings.HasPrefix(s, "//@") {
@@ -604,6 +612,28 @@ func (cs *Contracts) ParseContractFile(path string, pkgName string, isSpec bool)
 				sf.Body = e
 			}
 			cs.Specs[sf.Name] = sf
+		case strings.HasPrefix(s, "forbid_method"):
+			// forbid_method[Cxx] <Type> <Method>: <reason>
+			rest := strings.TrimSpace(s[len("forbid_method"):])
+			var props []string
+			if strings.HasPrefix(rest, "[") {
+				i := strings.Index(rest, "]")
+				for _, p := range strings.Split(rest[1:i], ",") {
+					props = append(props, strings.TrimSpace(p))
+				}
+				rest = strings.TrimSpace(rest[i+1:])
+			}
+			reason := ""
+			if i := strings.Index(rest, ":"); i >= 0 {
+				reason, rest = strings.TrimSpace(rest[i+1:]), strings.TrimSpace(rest[:i])
+			}
+			f := strings.Fields(rest)
+			if len(f) != 2 {
+				cs.Errors = append(cs.Errors, src+": bad forbid_method clause")
+				continue
+			}
+			cs.Forbids = append(cs.Forbids, &ForbidMethod{Pkg: pkgName, Type: f[0], Method: f[1], Reason: reason, Src: src, Props: props})
+			curF, curT = nil, nil
 		case strings.HasPrefix(s, "dead "):
 			// dead <func> returnK : the K-th return of func is unreachable; proved, and exempt from the cover query
 			f := strings.Fields(s)
